@@ -64,6 +64,37 @@ def htpasswdLogin (file : List Str) (scheme : Scheme) (oracle : Oracle) (l pw : 
   | none => []
   | some h => if verify scheme oracle h pw = some true then l else []
 
+/-! ### htpasswd_cache = True: the table is kept and re-read when the file's size or mtime differs -/
+
+structure HtCache where
+  table : List (Str × Str)
+  size : Nat
+  mtime : Nat
+
+def HtCache.load (file : List Str) (size mtime : Nat) : HtCache := ⟨parseFile file, size, mtime⟩
+
+/-- the check at the start of `_login`: either number differs → re-read -/
+def HtCache.refresh (c : HtCache) (file : List Str) (size mtime : Nat) : HtCache :=
+  if size ≠ c.size ∨ mtime ≠ c.mtime then HtCache.load file size mtime else c
+
+def tableLogin (tbl : List (Str × Str)) (scheme : Scheme) (oracle : Oracle) (l pw : Str) : Str :=
+  match lookup tbl l with
+  | none => []
+  | some h => if verify scheme oracle h pw = some true then l else []
+
+/-- one cached `_login`: `file`, `size`, `mtime` are what the file system shows at that moment -/
+def cachedLogin (c : HtCache) (file : List Str) (size mtime : Nat) (scheme : Scheme) (oracle : Oracle) (l pw : Str) :
+    HtCache × Str :=
+  let c' := c.refresh file size mtime
+  (c', tableLogin c'.table scheme oracle l pw)
+
+/-- a history of (file as it is now, size, mtime, login, password) -/
+def cachedRun (scheme : Scheme) (oracle : Oracle) : HtCache → List (List Str × Nat × Nat × Str × Str) → List Str
+  | _, [] => []
+  | c, (file, size, mtime, l, pw) :: rest =>
+    let r := cachedLogin c file size mtime scheme oracle l pw
+    r.2 :: cachedRun scheme oracle r.1 rest
+
 /-! ### the gate -/
 
 inductive Backend | none | denyall | htpasswd | remoteUser | httpXRemoteUser
